@@ -173,6 +173,14 @@ func runC01(p *Program, r *Result) {
 	r.Rule("R01.11", "a full buffer is flushed as non-final only when more data is pending (= R12.4)", 1)
 	checkChunkFlushGuard(p, r)
 
+	// ---- the payload Decrypt reads is what follows the header, whatever reader it was given (= R07.1/R07.3)
+	if pf, rsf, ivf, df := r.anchor(pkgFormat, "", "Parse"), r.anchor(pkgFormat, "StanzaReader", "ReadStanza"), r.anchor(pkgFormat, "", "isValidString"), r.anchor(pkgFormat, "", "DecodeString"); pf != nil && rsf != nil && ivf != nil && df != nil {
+		r.Rule("R01.12", "every header the format allows is read (= R07.1)", 16)
+		succ, ptb := checkCanonicalParse(p, r, pf, rsf, ivf, df)
+		r.Rule("R01.13", "the bytes read ahead while parsing the header are handed back in front of the payload (= R07.3)", 2)
+		checkPayloadHandBack(p, r, pf, succ, ptb)
+	}
+
 	// ---- recipes
 	r.Rule("R01.5-8", "wrap/unwrap, payload key, STREAM and armor recipes of both halves equal the specification table", 40)
 	checkSites(p, r, recipeSites, "C01")
